@@ -7,7 +7,8 @@ CONSTANTS
   Handles <- T_Handles
   DepSets <- T_DepSets
   HandlerSeqs <- T_HSeqs
-  UpRegs <- T_UpRegs
+  UpProgs <- T_UpProgs
+  CRProg <- T_CR
   QuitOn = TRUE
   QuitDeferred = TRUE
   DefCap = 4
